@@ -67,7 +67,7 @@ def make_params(rng):
     probs = rng.choice([(0.3, 0.1, 0.6), (0.0, 0.0, 1.0), (1.0, 0.0, 0.0), (0.0, 1.0, 0.0), (0.5, 0.5, 0.0), (0.25, 0.25, 0.5), (0.0, 0.5, 0.5)])
     tps = rng.choice([1, 10, 100, 1000, 100000])
     return {"waiting_seconds_mean": rng.choice([0.0004, 0.05, 0.5, 2.0, 10.0, 60.0, 3, 4, 5]) if rng.random() < 0.7 else rng.choice([3, 4, 5, 6]) / rng.choice([1, 10, 100]), "num_pipelines": rng.randint(1, 5),
-            "num_operators": rng.choice([1, 2, 5, 8]), "num_segs": 1, "cpu_io_ratio": rng.choice([0.0, 0.25, 0.5, 1.0]),
+            "num_operators": rng.choice([1, 2, 5, 8, 20, 40]), "num_segs": 1, "cpu_io_ratio": rng.choice([0.0, 0.25, 0.5, 1.0]),
             "random_seed": rng.randint(0, 10 ** 6), "interactive_prob": probs[0], "query_prob": probs[1], "batch_prob": probs[2],
             "ticks_per_second": tps}
 
@@ -136,6 +136,11 @@ def one_run(ctx, drv, rng, tables):
                         f"{ev[-1] if ev else None} the next one is due at tick {first if m['out'][first] else 'later'}, the generator "
                         f"{'emits nothing there' if m['out'][first] else 'emits one at tick ' + str(first)}"
                         + (f" and stays silent for the remaining {nticks - first} ticks" if not any(impl[first:]) else ""), {"params": params, "nticks": nticks})
+        if m.get("fits") and first is not None and first < len(m["out"]) and len(m["out"][first]) == len(impl[first]):
+            for mp, ip in zip(m["out"][first], impl[first]):
+                if mp[1] == ip[1] and len(mp[2]) != len(ip[2]):
+                    return viol(ctx, "chain-length", f"a non-query pipeline must be a chain of max(1, floor(draw)) operators: the draw gives {len(mp[2])} operators, "
+                                f"the generator built {len(ip[2])} (num_operators = {params['num_operators']})", {"params": params, "tick": first})
         if len(ctx.unproved) < 3:
             ctx.unproved.append({"kind": "correspondence", "component": "WorkloadGenerator (draw stream replay)", "params": params,
                                  "first_diverging_tick": first, "impl": impl[first] if first is not None else None,
@@ -190,10 +195,10 @@ def ratio_effect(ctx, rng):
     ctx.coverage["distinct_nontrivial"] += 1
 
 
-def statistics(ctx, rng):
+def statistics(ctx, rng, nops=8):
     """sampled, not proved: averages follow the parameters (5 sigma bands)"""
     n_ops, gaps, prios = [], [], {"QUERY": 0, "INTERACTIVE": 0, "BATCH_PIPELINE": 0}
-    params = {"waiting_seconds_mean": 2.0, "num_pipelines": 3, "num_operators": 8, "num_segs": 1, "cpu_io_ratio": 0.5,
+    params = {"waiting_seconds_mean": 2.0, "num_pipelines": 3, "num_operators": nops, "num_segs": 1, "cpu_io_ratio": 0.5,
               "random_seed": rng.randint(0, 10 ** 6), "interactive_prob": 0.3, "query_prob": 0.1, "batch_prob": 0.6, "ticks_per_second": 100}
     _, _, out = run_generator(params, 60000, record=False)
     last = None
@@ -212,8 +217,8 @@ def statistics(ctx, rng):
             "class_freq": {k: v / tot for k, v in prios.items()}}
     ctx.coverage["statistical_tests"] = stat
     # int() truncation lowers the mean by about 0.5
-    if abs(stat["mean_ops"] - (8 - 0.5)) > 5 * 2 / math.sqrt(len(n_ops)) + 0.1:
-        viol(ctx, "stat-num-operators", f"mean operator count {stat['mean_ops']:.2f} is not about num_operators = 8", {"params": params})
+    if abs(stat["mean_ops"] - (nops - 0.5)) > 5 * (nops / 4) / math.sqrt(len(n_ops)) + 0.1:
+        viol(ctx, "stat-num-operators", f"mean operator count {stat['mean_ops']:.2f} is not about num_operators = {nops}", {"params": params})
     if abs(stat["mean_gap_ticks"] - (200 - 0.5 + 1)) > 5 * 50 / math.sqrt(len(gaps)) + 1:
         viol(ctx, "stat-gap", f"mean gap {stat['mean_gap_ticks']:.1f} ticks is not about waiting_seconds_mean = 200 ticks", {"params": params})
     for k, pr in (("QUERY", 0.1), ("INTERACTIVE", 0.3), ("BATCH_PIPELINE", 0.6)):
@@ -233,6 +238,7 @@ def run(ctx):
     for _ in range(3 if ctx.quick() else 20):
         ratio_effect(ctx, rng)
     statistics(ctx, rng)
+    statistics(ctx, rng, nops=24)
     ctx.coverage["rule"] = ("generator runs over random parameter sets with every draw recorded by a proxy for gen.rng and replayed into the Lean model; "
                             "structure clauses checked on every emitted pipeline; coupling test of cpu_io_ratio with paired seeds; "
                             "averages sampled (labelled statistical_tests, not proofs); non-trivial = a run with at least two arrival events")
